@@ -39,6 +39,11 @@ CLAIMED = {
             "initialization, cancel in flight).",
             "Awaits complete; spawned futures run; lsp_server::Request::extract and channel send follow their contracts. Handler panics, the initialize handshake and scheduling are outside.",
             "DESIGN.md §2 C24"),
+    "C31": ("MIR-to-SMT symbolic execution (z3/cvc5) of configuration path pre-processing with an SMT model of UTF-8 strings: every str slice / split / unwrap / regex-capture index is a panic obligation; native replay through load_configs / pre_process_emmyrc under catch_unwind",
+            "For every valid UTF-8 string (symbolic length and bytes) and every outcome of the abstracted callees, z3 proves that no slice start is past the end or inside a character, no capture "
+            "group index can be absent (pattern analysed from the MIR constant), and no unwrap is reached on None — on all paths of pre_process_path, pre_process_workspace_path_item and the two regex closures.",
+            "std string API contracts; regex group participation by syntactic analysis of the pattern; JSON flattening, the Lua loader and file I/O are outside (a native panic battery covers them only as replay).",
+            "DESIGN.md §2 C31"),
 }
 
 NA = {}
@@ -87,7 +92,7 @@ def main():
         "engines": [
             {"name": "K", "path": "/verif/lib/kanirun.py", "serves_properties": sorted(CLAIMED),
              "kind_free_text": "Kani 0.68 proof harnesses (/verif/kani/*) over the real crates, CBMC 6.11 + cadical, unwinding assertions on, native replay"},
-            {"name": "M", "path": "/verif/mirsmt", "serves_properties": ["C19", "C20", "C24", "C36"],
+            {"name": "M", "path": "/verif/mirsmt", "serves_properties": ["C19", "C20", "C24", "C31", "C36"],
              "kind_free_text": "symbolic execution of rustc's MIR of the real functions into SMT (z3, cross-checked with cvc5)"},
         ],
         "checks": checks,
